@@ -15,7 +15,8 @@ Clauses(r) ==
      THEN {IF r.accepted THEN "C14_AdmittedIllFormed" ELSE "C14_RefusedWellFormed"} ELSE {})
   \cup (IF r.kind = "agent" /\ ~r.accepted /\ (r.executed \/ r.history > 0 \/ r.sockLeft)
      THEN {"C14_RefusedRunLeftEffects"} ELSE {})
-  \cup (IF r.kind = "agent" /\ r.accepted /\ (~r.executed \/ r.history = 0)
+  \cup (IF r.kind = "agent" /\ r.hung THEN {"C14_AdmittedRunNeverEnds"} ELSE {})
+  \cup (IF r.kind = "agent" /\ r.accepted /\ ~r.hung /\ (~r.executed \/ r.history = 0)
      THEN {"C14_AdmittedRunDidNothing"} ELSE {})
 
 Init == l = 1 /\ bad = 0
